@@ -199,6 +199,14 @@ fn gen_plan(rng: &mut Prng, forced: Option<(u64, u64)>) -> (ClockSpec, u64) {
             }
             // (the warm-up probes are handled below, once the warm-up deltas exist)
         }
+        "tiny" | "sum_boundary" | "table_mean" if rng.chance(1, 3) => {
+            // a near-constant timer plus one to three tolerated steps back: the steps alone carry the
+            // whole variation (guard and estimate must look at the same quantity)
+            for _ in 0..rng.range(1, 3) {
+                let i = rng.below(300) as usize;
+                measured[i] = 0u64.wrapping_sub(rng.range(1, 3_000_000));
+            }
+        }
         "backwards" => {
             let k = rng.range(2, 5) as usize; // around the limit of 3
             for _ in 0..k {
